@@ -125,7 +125,9 @@ def _matches_known(ob: Obligation, prop: str, known: list[dict]) -> dict | None:
     for k in known:
         if k.get("status") != "known" or k.get("property") != prop:
             continue
-        if k.get("rule") == ob.rule and k.get("construct") == ob.construct:
+        if k.get("rule") != ob.rule:
+            continue
+        if k.get("construct") == ob.construct or (k.get("construct_pattern") and re.fullmatch(k["construct_pattern"], ob.construct)):
             return k
     return None
 
